@@ -149,7 +149,20 @@ fn norm(r: Result<Message, RepeError>, req: &Message) -> Norm {
 fn gen_body(r: &mut Rng, kind: &str) -> (u16, Vec<u8>) {
     let fmt = *r.pick(&[0u16, 1, 2, 3, 4, 0xffff, 1, 2]);
     let good_in = json!({"a": r.below(1000) as i64 - 500, "b": format!("s{}", r.below(100))});
-    let body = match r.below(11) {
+    let body = match r.below(12) {
+        11 => {
+            // generic (serde) BEVE encodings of sequences, as a typed client produces them: the empty Vec is the untyped empty
+            // array `05 00`; bulk routes accept it on every dispatch path or on none
+            match r.below(8) {
+                0 | 1 => beve::to_vec(&Vec::<f64>::new()).unwrap(),
+                2 => beve::to_vec(&Vec::<i32>::new()).unwrap(),
+                3 => beve::to_vec(&vec![1.0f64, -0.0]).unwrap(),
+                4 => beve::to_vec(&Vec::<String>::new()).unwrap(),
+                5 => beve::to_vec(&Vec::<In>::new()).unwrap(),
+                6 => vec![0x05, 0x00, 0x00],
+                _ => beve::to_vec(&vec![1i32, 2]).unwrap(),
+            }
+        }
         9 => {
             // one complete JSON value followed by trailing data: the owned and the borrowed decoder must agree
             // on whether that is acceptable (trailing whitespace is; a second value / stray byte is not)
@@ -467,6 +480,9 @@ pub fn run(args: &Args) -> Report {
                 format!("{norm_prefix}x/y"),
                 { let mut c: Vec<char> = norm_prefix.chars().collect(); c.pop(); c.into_iter().collect::<String>() },
                 format!("/zz{norm_prefix}"),
+                format!("{norm_prefix}{norm_prefix}"),
+                format!("{norm_prefix}{norm_prefix}/c"),
+                format!("{norm_prefix}{norm_prefix}{norm_prefix}"),
                 "/".to_string(),
                 String::new(),
             ];
@@ -493,7 +509,24 @@ pub fn run(args: &Args) -> Report {
         let depth = if case < 41 { case as usize } else { r.usize_below(41) };
         let escape_free = r.coin();
         let toks: Vec<String> = (0..depth).map(|_| if escape_free { r.pick(&["a", "b", "", "0", "é", "x y"]).to_string() } else { r.pick(&TOK).to_string() }).collect();
-        let root = *r.pick(&["/st", "", "/deep/root"]);
+        let root = *r.pick(&["/st", "", "/deep/root", "/a", "/é", "/a~1b"]);
+        // a third of the cases: leading child tokens that repeat or extend the root's own text (the remainder after the mount
+        // prefix must be cut once, at the prefix, whatever the children are called)
+        let mut toks = toks;
+        if !root.is_empty() && !toks.is_empty() && r.below(3) == 0 {
+            let root_toks = tokenize(root);
+            let last = root_toks.last().cloned().unwrap_or_default();
+            let reps = 1 + r.usize_below(toks.len().min(3));
+            for t in toks.iter_mut().take(reps) {
+                *t = match r.below(5) {
+                    0 => last.clone(),
+                    1 => format!("{last}s"),
+                    2 => root_toks[0].clone(),
+                    3 => root_toks.join("/"),
+                    _ => format!("{last}/x"),
+                };
+            }
+        }
         let rel: String = toks.iter().map(|t| format!("/{}", esc(t))).collect();
         let path = format!("{root}{rel}");
         let rec = Arc::new(Mutex::new(vec![]));
